@@ -173,6 +173,7 @@ type EBin struct {
 type Binder struct {
 	Name string
 	Type string
+	Of   Expr // for "j idx(s)": j ranges over the valid indices of slice s
 }
 type EQuant struct {
 	Forall   bool
@@ -288,9 +289,19 @@ func (p *sparser) parseQuant() Expr {
 			p.next()
 			names = append(names, p.expectIdent())
 		}
-		typ := p.parseType()
-		for _, n := range names {
-			vars = append(vars, Binder{n, typ})
+		if p.isIdent("idx") && p.toks[p.p+1].kind == tPunct && p.toks[p.p+1].s == "(" {
+			p.next()
+			p.next()
+			of := p.parseExpr()
+			p.expect(")")
+			for _, n := range names {
+				vars = append(vars, Binder{Name: n, Type: "$idx", Of: of})
+			}
+		} else {
+			typ := p.parseType()
+			for _, n := range names {
+				vars = append(vars, Binder{Name: n, Type: typ})
+			}
 		}
 		if p.accept(";") || p.accept(",") {
 			continue
@@ -609,6 +620,7 @@ type FuncSpec struct {
 	Params   []string
 	Results  []string
 	Requires []Clause
+	Assumes  []Clause // assumed at entry of the verified function, never checked at call sites: listed as unchecked assumptions
 	Ensures  []Clause
 	Unfolds  []Clause // assumed at function entry and in callers after the call (definitions of spec functions)
 	Modifies []ModSpec
@@ -681,7 +693,7 @@ var clauseKeywords = map[string]bool{
 	"sort": true, "ghost": true, "pure": true, "pred": true, "axiom": true, "func": true, "trusted": true,
 	"interface": true, "functype": true, "requires": true, "ensures": true, "modifies": true, "loop": true,
 	"invariant": true, "decreases": true, "unfold": true, "inherits": true, "bv": true, "inline": true,
-	"smt": true, "guarded": true, "raises": true, "maypanic": true, "lemma": true, "fresh": true, "end": true,
+	"smt": true, "guarded": true, "assumes": true, "raises": true, "maypanic": true, "lemma": true, "fresh": true, "end": true,
 }
 
 // LoadSpecFile reads //@ lines from a file. pkgPath is the package the file belongs to ("" for trusted specs).
@@ -849,7 +861,7 @@ func (ss *SpecSet) LoadSpecFile(path, pkgPath string) error {
 				return fail(rc.line, "clause %q outside a function contract", rc.kw)
 			}
 			switch rc.kw {
-			case "requires", "ensures", "unfold", "invariant":
+			case "requires", "ensures", "unfold", "invariant", "assumes":
 				c, err := parseClause(rc.text, rc.line)
 				if err != nil {
 					return err
@@ -857,6 +869,8 @@ func (ss *SpecSet) LoadSpecFile(path, pkgPath string) error {
 				switch rc.kw {
 				case "requires":
 					cur.Requires = append(cur.Requires, c)
+				case "assumes":
+					cur.Assumes = append(cur.Assumes, c)
 				case "ensures":
 					cur.Ensures = append(cur.Ensures, c)
 				case "unfold":
@@ -1053,7 +1067,7 @@ func parsePureDecl(text string, isPred bool) (*PureDecl, error) {
 				}
 				ty := p.parseType()
 				for _, n := range names {
-					pd.Params = append(pd.Params, Binder{n, ty})
+					pd.Params = append(pd.Params, Binder{Name: n, Type: ty})
 				}
 				if !p.accept(";") && !p.accept(",") {
 					break
